@@ -1,28 +1,30 @@
 (* C40 correspondence.
-   CSnap: one snapshot function of the implementation run on a populated live
-   state.  The model of a snapshot is a deep copy: it exists, has content,
-   shares no reference target with the live state beyond the recorded findings
-   (the harness reports the number of shared sites that are *not* recorded),
-   does not change when the live state is mutated afterwards, and taking it
-   does not change the live state.
-   CLock: the verdict of the harness's own evaluation of the lockset checker
-   on the translated summaries of one lock group, compared with the Coq
-   checker's verdict on the generated file. *)
+   CSnap: one snapshot / deep-copy function of the implementation run on a
+   populated live state.  The model of a snapshot is a deep copy: it exists,
+   has content, shares no reference target with the live state beyond the
+   recorded findings (the harness reports the number of shared sites that are
+   *not* recorded), does not change when the live state is mutated
+   afterwards, and taking it does not change the live state.
+   CLock: the harness's own evaluation of the lockset checker on the
+   translated summaries of one lock group (number of parts, number of
+   rejected pairs) compared with the Coq checker run on the generated file
+   (the last two arguments are terms over gen/C40_summaries.v evaluated in the
+   shard): ties the witness-producing Go mirror to the verified checker. *)
 From Coq Require Import NArith Bool List.
 Import ListNotations.
 Local Open Scope N_scope.
 
 Inductive case :=
 | CSnap (id kind : N) (is_nil : bool) (idents unknown_shared : N) (changed_unexplained live_changed : bool)
-| CLock (id group nparts nviolations : N) (expect_parts expect_violations : N).
+| CLock (id group nparts nviolations : N) (coq_parts coq_violations : N).
 
 Definition check (c : case) : option N :=
   match c with
   | CSnap id _ is_nil idents unknown changed livechg =>
       if negb is_nil && (0 <? idents) && (unknown =? 0) && negb changed && negb livechg
       then None else Some id
-  | CLock id _ np nv ep ev =>
-      if (np =? ep) && (nv =? ev) then None else Some id
+  | CLock id _ np nv cp cv =>
+      if (np =? cp) && (nv =? cv) then None else Some id
   end.
 
 Definition mismatches (cs : list case) : list N :=
